@@ -11,6 +11,10 @@
 //!     the store's state (either registration path); transient lanes are handed nothing.
 //!  4. ids: asked for persistent lanes only; nothing is written under another id.
 //!  5. the store is only handed what the lane published.
+//!
+//! Bodies are unique per case and so identify the change that produced them - except the *empty*
+//! body (valid Recon: `()`, `None`, `Extant`), which one operation in ten carries. Frames and store
+//! operations with an empty body are placed in the lane's history by `Placing` (below).
 
 use std::collections::{BTreeMap, HashMap};
 
@@ -137,6 +141,96 @@ impl<'a> History<'a> {
     }
 }
 
+/// The sub-sequence a state-carrying operation belongs to: all sets of a value lane, all updates of
+/// one key of a map lane. Within one such sequence the runtime keeps the order (the map
+/// back-pressure queue replaces a pending operation of a key in place; across keys the order may change).
+fn group(op: &Op) -> Option<Option<&Bytes>> {
+    match op {
+        Op::Set(_) => Some(None),
+        Op::Upd(k, _) => Some(Some(k)),
+        _ => None,
+    }
+}
+
+fn has_empty_body(op: &Op) -> bool {
+    matches!(op, Op::Set(b) | Op::Upd(_, b) if b.is_empty())
+}
+
+/// Places operations that have no identity of their own (empty body) in the lane's history.
+///
+/// The lane (harness code) records with every state-carrying frame it emits the history position
+/// of the change that established the state shown (`Emit::idx`). What one remote receives for a
+/// lane and key is a sub-sequence of those emissions (some are superseded under back-pressure), and
+/// so are the store operations of the lane. Hence
+///  * a frame is placed at the **earliest** emission it can be (greedy embedding of the session's
+///    frames of that key, the frames with unique bodies anchoring it): a lower bound of what the
+///    remote saw - the k-th `update(key, <empty>)` frame of a session is no older than the k-th
+///    emission of that operation after the session's previous anchor;
+///  * a store operation is placed at the **latest** emission it can be (the same embedding from
+///    the end of the log): an upper bound of what the store was handed.
+/// Both roundings are towards "no violation": the comparison of rule 2 stays sound.
+struct Placing<'a> {
+    /// State-carrying emissions of the lane in order: (ticket before the write, what, history position).
+    emits: Vec<(u64, &'a Op, usize)>,
+}
+
+impl<'a> Placing<'a> {
+    fn new(rec: &'a LaneRec) -> Self {
+        let emits = rec
+            .emitted
+            .iter()
+            .filter_map(|e| match &e.what {
+                Emitted::Std(op) | Emitted::SyncEv(_, op) if group(op).is_some() => Some((e.t0, op, e.idx)),
+                _ => None,
+            })
+            .collect();
+        Placing { emits }
+    }
+
+    /// Lower bounds for the frames of one session (in the order received) that have an empty body:
+    /// frame ticket -> history position.
+    fn place_frames(&self, frames: &[(u64, Op)], into: &mut HashMap<u64, usize>) {
+        let mut next: HashMap<Option<&Bytes>, usize> = HashMap::new();
+        for (ft, op) in frames {
+            let Some(g) = group(op) else { continue };
+            let from = next.get(&g).copied().unwrap_or(0);
+            for j in from..self.emits.len() {
+                let (t0, eop, idx) = self.emits[j];
+                if t0 >= *ft {
+                    break;
+                }
+                if eop == op {
+                    next.insert(g, j + 1);
+                    if has_empty_body(op) {
+                        into.insert(*ft, idx);
+                    }
+                    break;
+                }
+            }
+        }
+    }
+
+    /// Upper bounds for the store operations of the lane (in log order): one entry per operation,
+    /// `None` where the operation carries no state or matches no emission.
+    fn place_store_ops(&self, ops: &[(u64, Op, usize)]) -> Vec<Option<usize>> {
+        let mut res = vec![None; ops.len()];
+        let mut end: HashMap<Option<&Bytes>, usize> = HashMap::new();
+        for (i, (t, op, _)) in ops.iter().enumerate().rev() {
+            let Some(g) = group(op) else { continue };
+            let to = end.get(&g).copied().unwrap_or(self.emits.len());
+            for j in (0..to).rev() {
+                let (t0, eop, idx) = self.emits[j];
+                if t0 < *t && eop == op {
+                    end.insert(g, j);
+                    res[i] = Some(idx);
+                    break;
+                }
+            }
+        }
+        res
+    }
+}
+
 enum Need {
     Value(usize),
     Upd(Bytes, usize),
@@ -222,8 +316,9 @@ pub fn check(obs: &Obs, out: &mut CaseOut) -> Summary {
             );
         }
     }
-    let mut ops_of: Vec<Vec<(u64, Op)>> = vec![vec![]; n_lanes];
-    for (t, op) in &obs.log {
+    // Store operations per lane: (ticket, operation in the lane's terms, index in the log).
+    let mut ops_of: Vec<Vec<(u64, Op, usize)>> = vec![vec![]; n_lanes];
+    for (log_idx, (t, op)) in obs.log.iter().enumerate() {
         let id = store_op_id(op);
         match lane_by_id.get(&id) {
             None => out.violation(PROP, "store-op-unknown-id", "a store operation used an identifier the store never gave to a lane of this agent", json!({"op": format!("{op:?}"), "ticket": t})),
@@ -249,7 +344,7 @@ pub fn check(obs: &Obs, out: &mut CaseOut) -> Summary {
                     );
                     continue;
                 }
-                ops_of[*l].push((*t, lop));
+                ops_of[*l].push((*t, lop, log_idx));
             }
         }
     }
@@ -258,7 +353,7 @@ pub fn check(obs: &Obs, out: &mut CaseOut) -> Summary {
     // ---- 5. the store is only handed what the lane published ------------------------------------
     for l in 0..n_lanes {
         let rec = &obs.lanes[l];
-        for (t, lop) in &ops_of[l] {
+        for (t, lop, _) in &ops_of[l] {
             let published = rec.emitted.iter().any(|e| {
                 e.t0 < *t
                     && match &e.what {
@@ -279,18 +374,50 @@ pub fn check(obs: &Obs, out: &mut CaseOut) -> Summary {
     }
 
     // ---- frames, per lane -----------------------------------------------------------------------
+    let placing: Vec<Placing> = obs.lanes.iter().map(Placing::new).collect();
     let mut frames_of: Vec<Vec<(u64, Op)>> = vec![vec![]; n_lanes];
+    // Lower bound of the history position shown by each frame with an empty body (by frame ticket).
+    let mut frame_lb: HashMap<u64, usize> = HashMap::new();
     let mut unparsed = 0u64;
+    let mut empty_frames = 0u64;
     for s in &obs.sessions {
+        let mut of_session: Vec<Vec<(u64, Op)>> = vec![vec![]; n_lanes];
         for f in s.frames.iter().filter(|f| f.kind == FrameKind::Event && f.node == NODE) {
             let Some(l) = lane_by_name.get(f.lane.as_str()).copied() else { continue };
             match frame_op(plan.lanes[l].kind, &f.body) {
-                Some(op) => frames_of[l].push((f.ticket, op)),
+                Some(op) => {
+                    if has_empty_body(&op) && !plan.lanes[l].transient {
+                        empty_frames += 1;
+                    }
+                    of_session[l].push((f.ticket, op))
+                }
                 None => unparsed += 1,
             }
         }
+        for l in 0..n_lanes {
+            if !plan.lanes[l].transient {
+                placing[l].place_frames(&of_session[l], &mut frame_lb);
+            }
+            frames_of[l].append(&mut of_session[l]);
+        }
     }
     out.add("frames-unparsed", unparsed);
+    out.add("frames-with-empty-body", empty_frames);
+    out.add("frames-with-empty-body-placed", frame_lb.len() as u64);
+    // Upper bound of the history position handed over by each store operation (by index in the log).
+    let mut store_ub: HashMap<usize, Option<usize>> = HashMap::new();
+    for l in 0..n_lanes {
+        if plan.lanes[l].transient {
+            continue;
+        }
+        let ub = placing[l].place_store_ops(&ops_of[l]);
+        for ((_, op, log_idx), ub) in ops_of[l].iter().zip(ub) {
+            store_ub.insert(*log_idx, ub);
+            if has_empty_body(op) {
+                out.count(if ub.is_some() { "store-ops-with-empty-body-placed" } else { "store-ops-with-empty-body-unplaced" });
+            }
+        }
+    }
     for fs in frames_of.iter_mut() {
         fs.sort_by_key(|(t, _)| *t);
     }
@@ -310,9 +437,22 @@ pub fn check(obs: &Obs, out: &mut CaseOut) -> Summary {
         let mut reported = false;
         for (ft, fop) in &frames_of[l] {
             sum.frames_checked += 1;
-            let stored_before = ops_of[l].iter().any(|(t, op)| t < ft && op == fop);
+            let empty = has_empty_body(fop);
+            // An empty body is matched by an earlier store operation with the same (key and) empty
+            // body that can stand for a state at least as new as the one the frame shows.
+            let lb = if empty { frame_lb.get(ft).copied() } else { None };
+            let stored_before = ops_of[l].iter().any(|(t, op, log_idx)| {
+                t < ft
+                    && op == fop
+                    && match (lb, store_ub.get(log_idx).copied().flatten()) {
+                        (Some(lb), Some(ub)) => ub >= lb,
+                        _ => true,
+                    }
+            });
+            let from_base = lb.map_or(true, |lb| lb == 0);
             let ok = stored_before
                 || match fop {
+                    Op::Set(_) | Op::Upd(..) if !from_base => false,
                     Op::Set(b) => {
                         if bv.as_ref() == Some(b) {
                             restored_frames += 1;
@@ -338,13 +478,19 @@ pub fn check(obs: &Obs, out: &mut CaseOut) -> Summary {
                 };
             if !ok && !reported {
                 reported = true;
-                let later = ops_of[l].iter().find(|(_, op)| op == fop).map(|(t, _)| *t);
+                // An equal operation was stored earlier, but it stands for an older state of the key
+                // than the frame shows (only possible with an empty body).
+                let older_equal_stored = ops_of[l].iter().any(|(t, op, _)| t < ft && op == fop);
+                if older_equal_stored {
+                    out.count("published-not-stored/decided-by-position-of-empty-body");
+                }
+                let later = ops_of[l].iter().find(|(t, op, _)| t > ft && op == fop).map(|(t, _, _)| *t);
                 out.violation(
                     PROP,
-                    format!("published-not-stored/{}", facets[l]),
+                    format!("published-not-stored/{}{}", facets[l], if empty { "/empty-body" } else { "" }),
                     "a remote received a state of a persistent lane that had not been handed to the store before (and that the store did not hold when the agent started)",
                     json!({
-                        "lane": spec.name, "frame": format!("{fop:?}"), "frame_ticket": ft, "same_op_stored_at_ticket": later,
+                        "lane": spec.name, "frame": format!("{fop:?}"), "frame_ticket": ft, "same_op_stored_later_at_ticket": later, "shows_history_position_at_least": lb, "equal_op_for_an_older_state_stored_before": older_equal_stored,
                         "store_ops_of_lane": ops_of[l].len(), "incarnation": gen, "ending": plan.ending.name(), "probe": plan.probe,
                         "lane_store_id": ids.get(&spec.name),
                     }),
@@ -364,38 +510,62 @@ pub fn check(obs: &Obs, out: &mut CaseOut) -> Summary {
             continue;
         }
         let h = History { spec, base_value: base_value(&obs.base, &spec.name), base_map: base_map(&obs.base, &spec.name), hist: &obs.lanes[l].hist };
-        // What each frame commits the store to.
-        let needs: Vec<(u64, Need)> = frames_of[l]
+        // What each frame commits the store to. (A frame with an empty body: the lower bound of `Placing`.)
+        let needs: Vec<(u64, Need, bool)> = frames_of[l]
             .iter()
             .filter_map(|(ft, fop)| {
+                let empty = has_empty_body(fop);
                 let need = match fop {
+                    Op::Set(_) if empty => Need::Value(*frame_lb.get(ft)?),
+                    Op::Upd(k, _) if empty => Need::Upd(k.clone(), *frame_lb.get(ft)?),
                     Op::Set(b) => Need::Value(h.value_idx(b)?),
                     Op::Upd(k, v) => Need::Upd(k.clone(), h.entry_idx(k, v)?),
                     Op::Rem(k) => Need::Rem(k.clone(), h.first_removal(Some(k), *ft)?),
                     Op::Clr => Need::Clr(h.first_removal(None, *ft)?),
                 };
-                Some((*ft, need))
+                Some((*ft, need, empty))
             })
             .collect();
         out.add("frames-not-in-lane-history", (frames_of[l].len() - needs.len()) as u64);
         let id = ids.get(&spec.name).copied();
-        // Store state of this lane, advanced operation by operation.
-        let mut value: Option<Bytes> = h.base_value.clone();
-        let mut map: BTreeMap<Bytes, Bytes> = h.base_map.clone();
+        // Store state of this lane, advanced operation by operation: the body and the history
+        // position it stands for (None: unknown - never held against the runtime). A unique body is
+        // its own position; an empty one has the upper bound of `Placing`; what the incarnation
+        // found in the store is position 0.
+        let mut value: Option<(Bytes, Option<usize>)> = h.base_value.clone().map(|v| {
+            let i = if v.is_empty() { Some(0) } else { h.value_idx(&v) };
+            (v, i)
+        });
+        let mut map: BTreeMap<Bytes, (Bytes, Option<usize>)> = h
+            .base_map
+            .iter()
+            .map(|(k, v)| {
+                let i = if v.is_empty() { Some(0) } else { h.entry_idx(k, v) };
+                (k.clone(), (v.clone(), i))
+            })
+            .collect();
         let mut next_need = 0;
-        let mut need_value: Option<(usize, u64)> = None;
-        let mut need_upd: BTreeMap<Bytes, (usize, u64)> = BTreeMap::new();
+        // Per kind of commitment: (history position, frame ticket, the frame had an empty body).
+        let mut need_value: Option<(usize, u64, bool)> = None;
+        let mut need_upd: BTreeMap<Bytes, (usize, u64, bool)> = BTreeMap::new();
         let mut need_rem: BTreeMap<Bytes, (usize, u64)> = BTreeMap::new();
         let mut need_clr: Option<(usize, u64)> = None;
         'cuts: for k in 0..=n {
             if k > 0 {
                 let (_, op) = &obs.log[k - 1];
                 if Some(store_op_id(op)) == id {
+                    let ub = store_ub.get(&(k - 1)).copied().flatten();
                     match op {
-                        StoreOp::PutValue { value: v, .. } => value = Some(Bytes::copy_from_slice(trim(v))),
+                        StoreOp::PutValue { value: v, .. } => {
+                            let v = Bytes::copy_from_slice(trim(v));
+                            let i = if v.is_empty() { ub } else { h.value_idx(&v) };
+                            value = Some((v, i));
+                        }
                         StoreOp::DeleteValue { .. } => value = None,
                         StoreOp::UpdateMap { key, value: v, .. } => {
-                            map.insert(Bytes::copy_from_slice(trim(key)), Bytes::copy_from_slice(trim(v)));
+                            let (key, v) = (Bytes::copy_from_slice(trim(key)), Bytes::copy_from_slice(trim(v)));
+                            let i = if v.is_empty() { ub } else { h.entry_idx(&key, &v) };
+                            map.insert(key, (v, i));
                         }
                         StoreOp::RemoveMap { key, .. } => {
                             map.remove(trim(key));
@@ -407,16 +577,16 @@ pub fn check(obs: &Obs, out: &mut CaseOut) -> Summary {
             let t_next = if k < n { obs.log[k].0 } else { u64::MAX };
             // Frames received before the next store operation was issued.
             while next_need < needs.len() && needs[next_need].0 < t_next {
-                let (ft, need) = &needs[next_need];
+                let (ft, need, empty) = &needs[next_need];
                 match need {
                     Need::Value(i) => {
-                        if need_value.map_or(true, |(j, _)| *i > j) {
-                            need_value = Some((*i, *ft));
+                        if need_value.map_or(true, |(j, _, _)| *i > j) {
+                            need_value = Some((*i, *ft, *empty));
                         }
                     }
                     Need::Upd(key, i) => {
-                        if need_upd.get(key).map_or(true, |(j, _)| *i > *j) {
-                            need_upd.insert(key.clone(), (*i, *ft));
+                        if need_upd.get(key).map_or(true, |(j, _, _)| *i > *j) {
+                            need_upd.insert(key.clone(), (*i, *ft, *empty));
                         }
                     }
                     Need::Rem(key, i) => {
@@ -433,39 +603,50 @@ pub fn check(obs: &Obs, out: &mut CaseOut) -> Summary {
                 next_need += 1;
             }
             sum.cuts += 1;
-            let mut bad: Option<(String, u64)> = None;
+            // (why, frame ticket, an empty body is involved)
+            let mut bad: Option<(String, u64, bool)> = None;
             match spec.kind {
                 Kind::Value => {
-                    if let Some((seen, ft)) = need_value {
+                    if let Some((seen, ft, empty)) = need_value {
                         // Nothing stored: the lane comes back at its default, which is the oldest state
                         // only if the incarnation itself started from the default.
                         let stored: Option<i64> = match &value {
-                            Some(v) => h.value_idx(v).map(|i| i as i64),
+                            Some((_, i)) => i.map(|i| i as i64),
                             None => Some(if h.base_value.is_none() { 0 } else { -1 }),
                         };
                         if let Some(stored) = stored {
                             if stored < seen as i64 {
-                                bad = Some((format!("seen value #{seen} of the lane's history, store holds #{stored} ({:?})", value.as_ref().map(|v| text(v))), ft));
+                                let holds_empty = value.as_ref().map_or(false, |(v, _)| v.is_empty());
+                                bad = Some((
+                                    format!("seen value #{seen} of the lane's history, store holds #{stored} ({:?})", value.as_ref().map(|(v, _)| text(v))),
+                                    ft,
+                                    empty || holds_empty,
+                                ));
                             }
                         }
                     }
                 }
                 Kind::Map => {
-                    for (key, (seen, ft)) in &need_upd {
+                    for (key, (seen, ft, empty)) in &need_upd {
                         let ok = match map.get(key) {
-                            Some(sv) => h.entry_idx(key, sv).map_or(true, |i| i >= *seen),
+                            Some((_, i)) => i.map_or(true, |i| i >= *seen),
                             None => h.removed_after(key, *seen),
                         };
                         if !ok {
-                            bad = Some((format!("seen entry {} -> change #{seen}, store holds {:?}", text(key), map.get(key).map(|v| text(v))), *ft));
+                            let holds_empty = map.get(key).map_or(false, |(v, _)| v.is_empty());
+                            bad = Some((
+                                format!("seen entry {} -> change #{seen}, store holds {:?}", text(key), map.get(key).map(|(v, i)| (text(v), *i))),
+                                *ft,
+                                *empty || holds_empty,
+                            ));
                             break;
                         }
                     }
                     if bad.is_none() {
                         for (key, (seen, ft)) in &need_rem {
-                            if let Some(i) = map.get(key).and_then(|sv| h.entry_idx(key, sv)) {
-                                if i <= *seen {
-                                    bad = Some((format!("seen removal of {} (change #{seen}), store still holds the entry of change #{i}", text(key)), *ft));
+                            if let Some((v, Some(i))) = map.get(key) {
+                                if i <= seen {
+                                    bad = Some((format!("seen removal of {} (change #{seen}), store still holds the entry of change #{i}", text(key)), *ft, v.is_empty()));
                                     break;
                                 }
                             }
@@ -473,10 +654,10 @@ pub fn check(obs: &Obs, out: &mut CaseOut) -> Summary {
                     }
                     if bad.is_none() {
                         if let Some((seen, ft)) = need_clr {
-                            for (key, sv) in &map {
-                                if let Some(i) = h.entry_idx(key, sv) {
-                                    if i <= seen {
-                                        bad = Some((format!("seen clear (change #{seen}), store still holds {} of change #{i}", text(key)), ft));
+                            for (key, (v, i)) in &map {
+                                if let Some(i) = i {
+                                    if *i <= seen {
+                                        bad = Some((format!("seen clear (change #{seen}), store still holds {} of change #{i}", text(key)), ft, v.is_empty()));
                                         break;
                                     }
                                 }
@@ -485,10 +666,10 @@ pub fn check(obs: &Obs, out: &mut CaseOut) -> Summary {
                     }
                 }
             }
-            if let Some((why, ft)) = bad {
+            if let Some((why, ft, empty)) = bad {
                 out.violation(
                     PROP,
-                    format!("published-newer-than-stored/{}", facets[l]),
+                    format!("published-newer-than-stored/{}{}", facets[l], if empty { "/empty-body" } else { "" }),
                     "a remote had already received a state of a persistent lane that the store, as it would survive a crash at this point, does not hold: a restart brings back something older than what a subscriber saw",
                     json!({
                         "lane": spec.name, "cut": k, "of": n, "final": k == n, "why": why, "frame_ticket": ft, "next_store_op_ticket": if k < n { Some(t_next) } else { None },
@@ -496,6 +677,64 @@ pub fn check(obs: &Obs, out: &mut CaseOut) -> Summary {
                     }),
                 );
                 break 'cuts;
+            }
+        }
+    }
+
+    // ---- evidence: lane events that wake the write task from an outstanding stop vote --------------------
+    // The write task's inactivity timer starts again with every frame of any lane and with every
+    // link / unlink (or "lane not found") it is told about. A lane event that comes more than one
+    // time-out after the last of those, and that the runtime still handles (stores / publishes),
+    // found the write task with its stop vote cast and the vote incomplete (the read task was kept
+    // awake by requests): it rescinds the vote. Rules 1 and 2 apply to it like to any other event.
+    if let Some(t_ms) = plan.timeout_ms {
+        let mut activity: Vec<(u64, tokio::time::Instant)> = vec![];
+        for rec in &obs.lanes {
+            activity.extend(rec.emitted.iter().map(|e| (e.t0, e.at)));
+        }
+        for s in &obs.sessions {
+            for r in &s.reqs {
+                let known = lane_by_name.contains_key(r.lane.as_str());
+                let told = match r.kind {
+                    crate::remote::ReqKind::Link | crate::remote::ReqKind::Unlink => true,
+                    crate::remote::ReqKind::Sync => !known,
+                    crate::remote::ReqKind::Command => false,
+                };
+                if told {
+                    activity.push((r.t0, r.at));
+                }
+            }
+        }
+        activity.sort_by_key(|(t, _)| *t);
+        let limit = std::time::Duration::from_millis(t_ms);
+        for l in 0..n_lanes {
+            let spec = &plan.lanes[l];
+            for e in &obs.lanes[l].emitted {
+                let Emitted::Std(op) = &e.what else { continue };
+                let before = activity.partition_point(|(t, _)| *t < e.t0);
+                if before == 0 {
+                    continue;
+                }
+                if e.at.duration_since(activity[before - 1].1) <= limit {
+                    continue;
+                }
+                out.count("lane-event-after-silence>timeout");
+                if spec.transient {
+                    continue;
+                }
+                let stored = ops_of[l].iter().any(|(t, sop, _)| *t > e.t0 && sop == op);
+                let received = frames_of[l].iter().any(|(t, fop)| *t > e.t0 && fop == op);
+                if stored || received {
+                    // The agent stayed up: the event rescinded the write task's vote.
+                    out.count("persistent-lane-event-rescinds-stop-vote");
+                    out.count(&format!("persistent-lane-event-rescinds-stop-vote/timeout-{t_ms}ms"));
+                    if received {
+                        out.count("persistent-lane-event-rescinds-stop-vote/received-by-remote");
+                    }
+                    if has_empty_body(op) {
+                        out.count("persistent-lane-event-rescinds-stop-vote/empty-body");
+                    }
+                }
             }
         }
     }
@@ -511,7 +750,14 @@ pub fn check(obs: &Obs, out: &mut CaseOut) -> Summary {
             // A registration that races with the end of the incarnation may fail; so does one that
             // comes after the runtime gave up because the store refused an operation.
             let runtime_gave_up = obs.refused.first().map_or(false, |(rt, _)| rt < t) || obs.read_refused.first().map_or(false, |(rt, _)| rt < t);
-            if *t < obs.ending_at && !runtime_gave_up && obs.agent_result.as_ref().map_or(true, |r| r.is_ok()) {
+            // With a finite inactivity time-out the runtime may stop by itself in the middle of the
+            // script: a registration that comes after that stop (or races with it) fails like one that races with the ending.
+            // (Not before one time-out of virtual time has passed since the incarnation began.)
+            let timed_out = match (plan.timeout_ms, rec.reg_error_at) {
+                (Some(ms), Some(at)) => at.duration_since(obs.epoch) >= std::time::Duration::from_millis(ms),
+                _ => false,
+            };
+            if *t < obs.ending_at && !runtime_gave_up && !timed_out && obs.agent_result.as_ref().map_or(true, |r| r.is_ok()) {
                 out.violation(
                     PROP,
                     format!("lane-registration-failed/{}", facets[l]),
